@@ -490,6 +490,11 @@ theorem addIfSink_keepsW (g : G) (o : Nat) (n : String) (i : Nat) : KeepsW none 
     · exact forEach_rel (KeepsW.refl _) (KeepsW.trans _) _ (fun g x => addIn_keepsW _ _ _ _) _ _
     · intro g1; exact forEach_rel (KeepsW.refl _) (KeepsW.trans _) _ (fun g x => addOut_keepsW _ _ _ _) _ _
 
+theorem newWires_keeps (g : G) (p : Nat) (n : String) (k : Nat) : Keeps g (newWires g p n k).1 :=
+  forEach_rel Keeps.refl Keeps.trans _ (fun g x => newWire_keeps _ _ _ _) _ _
+theorem newWires_keepsW (g : G) (p : Nat) (n : String) (k : Nat) : KeepsW none g (newWires g p n k).1 :=
+  forEach_rel (KeepsW.refl _) (KeepsW.trans _) _ (fun g x => newWire_keepsW _ _ _ _) _ _
+
 /-- disconnect touches only wires and ports: children and `_wires` registries are kept -/
 theorem disconnect_objs (g : G) (w o : Nat) : (disconnect g w o).1.objs = g.objs := by
   unfold disconnect
@@ -530,6 +535,7 @@ theorem step_keeps (g : G) (op : Op) (h : op.isDisconnect = false) : Keeps g (st
   | addIfSource o n i => exact addIfSource_keeps _ _ _ _
   | addIfSink o n i => exact addIfSink_keeps _ _ _ _
   | disconnect w o => simp [Op.isDisconnect] at h
+  | wires p n k => exact newWires_keeps _ _ _ _
 
 theorem step_keepsW (g : G) (op : Op) : KeepsW (op.moved g) g (step g op).1 := by
   cases op with
@@ -547,6 +553,7 @@ theorem step_keepsW (g : G) (op : Op) : KeepsW (op.moved g) g (step g op).1 := b
   | addIfSource o n i => exact addIfSource_keepsW _ _ _ _
   | addIfSink o n i => exact addIfSink_keepsW _ _ _ _
   | disconnect w o => exact keepsW_of_eq (disconnect_objs _ _ _)
+  | wires p n k => exact newWires_keepsW _ _ _ _
 
 theorem step_keeps_child (g : G) (op : Op) (o : Nat) (n : String) (c : Nat) (h : childOf g o n = some c) :
     childOf (step g op).1 o n = some c := by
